@@ -173,9 +173,26 @@ func main() {
 				last = i
 			}
 			f.add64(uint64(int64(last)))
+			// every form of the range clause iterates once per rune
+			c0, c1, c2, c3 := 0, 0, 0, 0
+			for range s {
+				c0++
+			}
+			for _ = range s {
+				c1++
+			}
+			for _, _ = range s {
+				c2++
+			}
+			for _, r := range s {
+				c3 += int(r & 1)
+				c3 += 2
+			}
+			f.add64(uint64(c0)<<40 | uint64(c1)<<20 | uint64(c2))
+			f.add64(uint64(c3))
 			n++
 			if n%9973 == 0 {
-				println("S range " + q(s) + " " + itoa(cnt) + " " + itoa(last))
+				println("S range " + q(s) + " " + itoa(cnt) + " " + itoa(last) + " " + itoa(c0) + itoa(c1) + itoa(c2))
 			}
 		})
 		println("D range " + f.sum() + " " + itoa(n))
@@ -388,6 +405,48 @@ func main() {
 		println("D random " + f.sum() + " " + itoa(n))
 	}
 	literals()
+	{
+		// conversions between long byte slices / strings: every offset into the backing array
+		// and every length around the chunk size of the run-time conversion loops
+		f := newFnv()
+		n := 0
+		buf := make([]byte, 30011)
+		for i := range buf {
+			buf[i] = byte(i*7 + i/251 + (i>>8)*3)
+		}
+		offs := []int{0, 1, 16, 4096, 9999, 10000, 10001, 19999, 20000, 25000}
+		lens := []int{0, 1, 2, 9999, 10000, 10001, 12000, 20000, 20001, 30011}
+		for _, off := range offs {
+			for _, l := range lens {
+				if off+l > len(buf) {
+					continue
+				}
+				sub := buf[off : off+l]
+				str := string(sub)
+				f.add64(uint64(len(str)))
+				f.addStr(str)
+				if l > 0 {
+					f.add64(uint64(str[0])<<8 | uint64(str[l-1]))
+				}
+				back := []byte(str)
+				f.add64(uint64(len(back)))
+				same := len(back) == len(sub)
+				for i := 0; same && i < len(back); i++ {
+					same = back[i] == sub[i]
+				}
+				f.addStr(btoa(same))
+				rs := []rune(str)
+				f.add64(uint64(len(rs)))
+				f.add64(uint64(len(string(rs))))
+				f.addStr(str[l/2:] + str[:l/2])
+				n++
+				if n%17 == 0 {
+					println("S bigconv " + itoa(off) + " " + itoa(l) + " " + itoa(len(str)) + " " + itoa(len(rs)) + " " + btoa(same))
+				}
+			}
+		}
+		println("D bigconv " + f.sum() + " " + itoa(n))
+	}
 	println("END")
 }
 `
